@@ -122,22 +122,72 @@ def static_length(e, fn):
 
 def r19_1(ctx):
     f = ctx.prog.func(B + '.make_knots')
-    kvdef = [s for s in own_nodes(f.node) if isinstance(s, ast.Assign) and src(s.targets[0]) == 'kv']
-    cons = [c for c in ast.walk(f.node) if isinstance(c, ast.Call) and call_name(c) == 'KnotVector']
-    if not kvdef or not cons:
-        raise AnchorMissing('R19.1: make_knots no longer builds kv and passes it to KnotVector')
-    e = kvdef[0].value
+    cons = [c for c in ast.walk(f.node) if isinstance(c, ast.Call) and call_name(c) == 'KnotVector' and c.args]
+    if not cons:
+        raise AnchorMissing('R19.1: make_knots no longer constructs a KnotVector')
+    local = {}
+    for s in own_nodes(f.node):
+        if isinstance(s, ast.Assign) and len(s.targets) == 1 and isinstance(s.targets[0], ast.Name):
+            local.setdefault(s.targets[0].id, []).append(s)
+
+    def resolve(x, depth=0):
+        while isinstance(x, ast.Name) and len(local.get(x.id, [])) == 1 and depth < 5:
+            x = local[x.id][0].value
+            depth += 1
+        return x
+    e = resolve(cons[0].args[0])
+    kvdef = [local['kv'][0]] if len(local.get('kv', [])) == 1 else [cons[0]]
     L = static_length(e, f.node)
     P, N, M = affine.Lin.sym('p'), affine.Lin.sym('n'), affine.Lin.sym('mult')
+
+    # the first and the last knot are exactly a and b (every space over [a, b] has the same support, whatever n):
+    # they must be copies of the arguments (np.repeat(a, ..), the pinned end points of np.linspace(a, b, ..)), not the
+    # result of floating-point arithmetic such as a + (b - a) / n * n
+    def end_exact(x, which, depth=0):
+        x = resolve(x)
+        if depth > 6:
+            return None
+        if isinstance(x, ast.Name):
+            return True if x.id == ('a' if which == 0 else 'b') else None
+        if isinstance(x, ast.Call):
+            nm = call_name(x) or ''
+            if nm == 'np.concatenate' and x.args and isinstance(x.args[0], (ast.Tuple, ast.List)) and x.args[0].elts:
+                return end_exact(x.args[0].elts[0 if which == 0 else -1], which, depth + 1)
+            if nm in ('np.repeat', 'np.full_like', 'np.asarray', 'np.array', 'np.ascontiguousarray') and x.args:
+                return end_exact(x.args[0], which, depth + 1)
+            if nm == 'np.full' and len(x.args) >= 2:
+                return end_exact(x.args[1], which, depth + 1)
+            if nm == 'np.linspace' and len(x.args) >= 2:
+                ep = kwarg(x, 'endpoint', 99)
+                if which == 1 and ep is not None and not (isinstance(ep, ast.Constant) and ep.value is True):
+                    return None
+                return end_exact(x.args[which], which, depth + 1)
+            return None
+        if isinstance(x, ast.BinOp):
+            leaves = {n.id for n in ast.walk(x) if isinstance(n, ast.Name)}
+            if {'a', 'b'} & leaves and any(isinstance(c, ast.Call) and (call_name(c) or '').endswith('arange') for c in ast.walk(x)):
+                return False if which == 1 else (True if isinstance(x.op, ast.Add) and isinstance(resolve(x.left), ast.Name) and resolve(x.left).id == 'a' else None)
+            return None
+        if isinstance(x, ast.Subscript):
+            return None
+        return None
+    for which, nm in ((0, 'a'), (1, 'b')):
+        ok = end_exact(e, which)
+        ctx.decide('R19.1', f.qual, 'the %s knot is exactly the argument %s' % ('first' if which == 0 else 'last', nm), ok, kvdef[0],
+                   'end knots are copies of a and b; computing them as a + (b - a)/n * k rounds, so spaces with different n over the same '
+                   'interval get different supports' if ok is not True else 'copied from the argument / pinned end point of np.linspace', definite=True)
     if L is None:
         # find the culprit
         culprit = None
         for c in ast.walk(e):
             if isinstance(c, ast.Call) and call_name(c) == 'np.arange' and arange_status(c) == 'fractional':
                 culprit = c
-        ctx.violated('R19.1', f.qual, src(culprit) if culprit is not None else src(e)[:100], culprit or kvdef[0],
-                     'the knot array has no static length: np.arange with a non-integral step yields ceil((b-a)/step) elements, '
-                     'which depends on rounding of (b-a)/n -- the number of spans is not always n')
+        if culprit is not None:
+            ctx.violated('R19.1', f.qual, src(culprit), culprit,
+                         'the knot array has no static length: np.arange with a non-integral step yields ceil((b-a)/step) elements, '
+                         'which depends on rounding of (b-a)/n -- the number of spans is not always n')
+        else:
+            ctx.undecided('R19.1', f.qual, 'len(kv)', kvdef[0], 'static length of `%s` not determined' % src(e)[:80])
     else:
         want_txt = '2*(p+1) + mult*(n-1)'
         got = repr(L)
